@@ -40,7 +40,7 @@ def parseXf (s : Str) : Option Xf :=
     match stripSuffix [')'] rest with
     | none => none
     | some argstr =>
-      match allSome (((splitBy isXfSep argstr).filter (· ≠ [])).map strp) with
+      match svgNumberList (argstr.length + 1) argstr with
       | none => none
       | some args =>
         let n := asciiLower name
@@ -83,10 +83,9 @@ def passthrough (v : Str) : Bool :=
 
 def zstr : Str := ['0']
 
-/-- `points` attribute scan of bbox_raw: alternate x / y over whitespace- then comma-separated numbers -/
+/-- `points` attribute scan of bbox_raw: alternate x / y over the list of SVG numbers -/
 def pointsBBox (pts : Str) : Except Err (Option BoundingBox) :=
-  let toks := ((splitWhitespace pts).flatMap (splitBy (· == ','))).map trim |>.filter (· ≠ [])
-  match allSome (toks.map strp) with
+  match svgNumberList (pts.length + 1) pts with
   | none => .error .parse
   | some nums =>
     let xs := (nums.zipIdx.filter (fun p => p.2 % 2 == 0)).map (·.1)
